@@ -1,9 +1,15 @@
 import ScriggoV.Model.ShowFacts
+import ScriggoV.Model.ShowNode
 /-! C09 driver. Requests (descriptors in prefix notation, fixed arity):
 
     kindord <kind>                         → ok <reflect.Kind value>
     show <actx> <inURL 0|1> <desc>         → ok <static> <dynamic> <wf 0|1> <dynAcceptedTop 0|1>
     table                                  → ok -   |  ok <ctx>:<fact>:<state>;…   (failing states)
+    shownode <actx> <inURL> <n> (<m> opnd×m)×n → ok <verdict> <dyn,dyn,…>   (the regenerated Show case on a
+                                             node with n expressions of m operands each; dyn: what showing
+                                             the evaluated operand of each expression does, `-` if none)
+
+    opnd := absent | nil | typed desc
 
     info := <kind> <ident> <iface,iface,…|->
     desc := basic info | seen info | nil info | val info desc | elem info desc
@@ -84,6 +90,29 @@ def failing : List String :=
     ctxName c ++ ":" ++ f ++ ":self[" ++ showSubj st.self ++ "]" ++
       (if f == "key" || f == "key-nil" then "key[" ++ showSubj st.key ++ "]" else "")
 
+def parseOpnds : Nat → Nat → List String → Option (List Operand × List String)
+  | _, 0, rest => some ([], rest)
+  | fuel, m + 1, "absent" :: rest => do
+    let (os, rest) ← parseOpnds fuel m rest
+    pure (.absent :: os, rest)
+  | fuel, m + 1, "nil" :: rest => do
+    let (os, rest) ← parseOpnds fuel m rest
+    pure (.untypedNil :: os, rest)
+  | fuel, m + 1, "typed" :: rest => do
+    let (t, rest) ← parseDesc fuel rest
+    let (os, rest) ← parseOpnds fuel m rest
+    pure (.typed t :: os, rest)
+  | _, _ + 1, _ => none
+
+def parseExprs (fuel : Nat) : Nat → List String → Option (List (List Operand) × List String)
+  | 0, rest => some ([], rest)
+  | n + 1, m :: rest => do
+    let m ← m.toNat?
+    let (ops, rest) ← parseOpnds fuel m rest
+    let (es, rest) ← parseExprs fuel n rest
+    pure (ops :: es, rest)
+  | _ + 1, [] => none
+
 def handle : List String → Option String
   | ["kindord", k] => do
     let k ← findBy Kind.all Kind.name k
@@ -95,6 +124,17 @@ def handle : List String → Option String
     if !rest.isEmpty then none
     let c : Ctx := ⟨a, u⟩
     pure ("ok " ++ (staticTop c t).name ++ " " ++ (dynTop c t).name ++ " " ++ b01 t.wf ++ " " ++ b01 (dynAcceptedTop c t))
+  | "shownode" :: a :: u :: n :: rest => do
+    let a ← findBy ACtx.all ACtx.name a
+    let u ← parseBool u
+    let n ← n.toNat?
+    let (exprs, rest) ← parseExprs (rest.length + 1) n rest
+    if !rest.isEmpty then none
+    let c : Ctx := ⟨a, u⟩
+    let dyn := exprs.map fun ops => match evaluated ops with
+      | some t => (dynTop c t).name
+      | none => "-"
+    pure ("ok " ++ (checkShowNode c exprs).name ++ " " ++ (if dyn.isEmpty then "-" else ",".intercalate dyn))
   | ["table"] =>
     let f := failing
     pure ("ok " ++ (if f.isEmpty then "-" else ";".intercalate f))
